@@ -185,11 +185,20 @@ def check_ip(ctx, c, o, mo):
     # conditioning: the gradient steps divide by sigma^2 and 1/a, so a few steps can amplify rounding by
     # many orders of magnitude (a 1e-13 relative change of the inputs moved `a` by 4e-6 on one generated
     # case). The slack is what a 1e-13 relative perturbation of the inputs does to the implementation.
-    c2 = json.loads(json.dumps(c))
+    slack = {k: 0.0 for k in ("a", "b", "x")}
     prng = np.random.default_rng(12345)
-    c2["seqs"] = [[[v * (1 + 1e-13 * prng.standard_normal()) for v in row] for row in sq] for sq in c["seqs"]]
-    o2 = common.exc_class(run_ip, c2)
-    slack = {k: (float(np.max(np.abs(o[1][k] - o2[1][k]))) if o2[0] == "ok" else 0.0) for k in ("a", "b", "x")}
+    for _ in range(3):
+        c2 = json.loads(json.dumps(c))
+        c2["seqs"] = [[[v * (1 + 1e-13 * prng.standard_normal()) for v in row] for row in sq] for sq in c["seqs"]]
+        o2 = common.exc_class(run_ip, c2)
+        if o2[0] == "ok":
+            for k in slack:
+                slack[k] = max(slack[k], 10 * float(np.max(np.abs(o[1][k] - o2[1][k]))))
+    if max(slack.values()) > 1e-6:
+        # rounding is amplified by more than seven orders of magnitude over this fit: the two float computations cannot
+        # be expected to agree to any useful tolerance; the case says nothing either way
+        ctx.stat("ip cases skipped: chaotic amplification of rounding")
+        return
     ctx.notes["ip_max_conditioning_slack"] = max(ctx.notes.get("ip_max_conditioning_slack", 0.0), max(slack.values()))
     for key in ("a", "b", "x"):
         mv = [unfbits(v) for v in mo[1][key]]
